@@ -3,10 +3,59 @@ import vlib
 from props import common, mix
 
 THM = "NextestModel.Thm.C16"
+THM_EXTRA = ["NextestModel.Thm.C16Display"]
+CHECK_MODULES = ["NextestModel.Lemmas.Display", "NextestModel.Model.Display"]
 GEN = []
 TRUSTED = ["model: Model/Capture (accumulator over an abstract pipe); tokio / epoll / kernel pipes are not modelled",
+           "model: Model/Display (description heuristics, highlight, trailing newline); strip-ansi-escapes is not modelled (a Piece.strip says which bytes it is handed; in the correspondence its result on every such piece is a table computed with the real crate); bstr lines / lines_with_terminator / trim_end_with / rfind and the regexes ^thread '([^']+)' panicked at  and ^Error:  (multi-line, bytes, Unicode; find_iter non-overlapping) are modelled from their documentation; the failure style's escape sequences are read off the status line",
            "the event-log tap records length + xxh64 of every captured stream per attempt; the expected bytes are recomputed from the scripted pattern"]
 ASSUMPTIONS = ["the documented normalisations (lossy UTF-8, ANSI and XML-invalid character stripping) are checked on one fixed hostile output (controls, ANSI escape, U+FFFE/U+FFFF, astral planes, private use, invalid UTF-8) against a pinned expected text; the combined capture mode is not exercised"]
+
+
+def uhb(x):
+    try: return bytes.fromhex(x) if x not in ("-", ".", "none") else (None if x == "none" else b"")
+    except ValueError: return x
+
+
+def run_display(seed, tier):
+    """p_display: the description heuristics and what the display reporter writes, against Model/Display."""
+    n = 250 if tier == "quick" else 12000
+    r = common.run_streams([("p_display", [seed, n, vlib.BUILD + "/display-tmp"])])
+    items = [([b, args, idx], req, impl) for (b, args, idx, req, impl) in r.cases]
+    mism, _ = common.compare(items, None)
+    violations, detail = [], []
+    for m in mism:
+        f = m["req"].split(" ")
+        if "<not-in-strip-table>".encode().hex() in m["model"]:
+            r.broken.append(f"p_display: a piece handed to the ANSI stripper is missing from the table of request {m['req'][:120]}")
+            continue
+        if f[0] in ("hext", "hlend"):
+            # which part is highlighted is not what the property is about: a disagreement here breaks the correspondence only
+            detail.append({"stream": m["origin"][:2], "line_index": m["origin"][2], "request": m["req"][:400], "impl": m["impl"], "model": m["model"],
+                           "note": "description heuristics / highlight_end differ from Model/Display"})
+            continue
+        if f[0] == "hext":
+            what = f"the description picked from a failing test's output differs from the documented heuristics: stdout={uhb(f[1])!r} stderr={uhb(f[2])!r}: nextest picks {m['impl']}, the model {m['model']} (kind:start:bytes)"
+        elif f[0] == "hlend":
+            what = f"highlight_end({uhb(f[1])!r}) = {m['impl']}, expected {m['model']} (the second newline, or the length)"
+        else:
+            io, ie = (m["impl"].split(";") + ["?"])[:2]; mo, me = (m["model"].split(";") + ["?"])[:2]
+            which, got, exp, raw = ("stdout", io, mo, f[2]) if io != mo else ("stderr", ie, me, f[3])
+            # the property itself on the implementation: with every escape sequence (the test's and nextest's) stripped, what is shown
+            # must be the captured bytes, a final newline ensured or added
+            shown, plus_nl, ensured_nl = f[7].split("/")[0 if which == "stdout" else 1].split(":")
+            if got != "panic" and (raw in ("-",) or shown in (plus_nl, ensured_nl)):
+                detail.append({"stream": m["origin"][:2], "line_index": m["origin"][2], "request": m["req"][:400], "impl": m["impl"], "model": m["model"],
+                               "note": f"the bytes shown for {which} are the captured ones; only nextest's own colour sequences / the highlighted part differ from Model/Display"})
+                continue
+            what = (f"what nextest shows for a failing test's {which} is not the captured bytes (colour {'on' if f[1] == 'c' else 'off'}): captured {uhb(raw)!r}, shown {uhb(got)!r}, "
+                    f"expected {'a panic (slice out of range)' if exp == 'panic' else repr(uhb(exp))}")
+        violations.append({"what": what, "payload": {"stream": m["origin"][:2], "line_index": m["origin"][2], "request": m["req"], "impl": m["impl"], "spec": m["model"]}, "kind": "display"})
+    nt = {q for _, q, i in items if (q.startswith("hext ") and i != "none") or (q.startswith("show c ") and "1b5b" in i)}
+    return {"evaluations": len(items), "distinct_nontrivial": len(nt),
+            "rule": "p_display: a failing test with random stdout / stderr (0-9 pieces: panic-message and Error: lines in all positions and overlaps, should-panic notes, every kind of line ending and Unicode white space, escape sequences, invalid UTF-8, either stream absent, both equal) — TestOutputErrorSlice::heuristic_extract and highlight_end called directly, and the real Reporter driven colour on and off with the two displayed regions cut out of its buffer; compared with Model/Display (the ANSI stripper's result on every piece it can be handed is given to the model as a table; the failure style is read off the status line); non-trivial = a description is found, or a highlighted region",
+            "samples": [f"{q[:160]}  =>  {i[:120]}" for (_, q, i) in items[:4]], "traces": len(items), "dist": {"display:" + k: v for k, v in r.dist.items()},
+            "violations": violations, "broken": r.broken, "impl_failures": r.impl_failures, "detail_mismatches": detail}
 
 
 def run(seed, tier, replay=None):
@@ -15,6 +64,11 @@ def run(seed, tier, replay=None):
     from props import tim
     r = mix.merge(result, mix.check([mix.mon_output, attribution], seed, tier, 13, 80))
     # output written on SIGTERM, just before a timed-out attempt exits
-    return mix.merge(r, tim.run_family("slow", seed, tier, 6, 40, kinds=("capture",)))
+    r = mix.merge(r, tim.run_family("slow", seed, tier, 6, 40, kinds=("capture",)))
+    d = run_display(seed, tier)
+    for k in ("evaluations", "distinct_nontrivial", "traces"): r[k] = r.get(k, 0) + d[k]
+    r["rule"] = (r.get("rule", "") + " || " + d["rule"]).strip(" |"); r["samples"] = r.get("samples", []) + d["samples"]; r.setdefault("dist", {}).update(d["dist"])
+    for k in ("violations", "broken", "impl_failures", "detail_mismatches"): r[k] = r.get(k, []) + d.get(k, [])
+    return r
 
 KNOWN_MATCHERS = {}
